@@ -8,14 +8,19 @@ use std::marker::PhantomPinned;
 use std::pin::Pin;
 use std::task::{Context, Poll};
 
-/// `!Unpin` future with a unique id; `Output = Tok`.
+/// `!Unpin` future with a unique id; `Output = Tok`. If its script lists grandchildren it is a
+/// *nested* child: a `join_all` over them, so that a child waker of this crate becomes the task
+/// waker registered inside another instance of the crate.
 pub struct Child {
     pub id: u32,
+    inner: Option<Box<futures_buffered::JoinAll<Child>>>,
     _pin: PhantomPinned,
 }
 impl Child {
     pub fn new(id: u32) -> Child {
-        Child { id, _pin: PhantomPinned }
+        let grand: Vec<u32> = crate::world::try_w().map(|w| w.kids.borrow()[id as usize].nested.clone()).unwrap_or_default();
+        let inner = if grand.is_empty() { None } else { Some(Box::new(futures_buffered::join_all(grand.into_iter().map(Child::new)))) };
+        Child { id, inner, _pin: PhantomPinned }
     }
 }
 impl Future for Child {
@@ -23,22 +28,107 @@ impl Future for Child {
     fn poll(self: Pin<&mut Self>, cx: &mut Context<'_>) -> Poll<Tok> {
         let addr = &*self as *const Child as usize;
         let w = w();
-        match w.fut_poll(self.id, addr, cx) {
-            Some(_) => {
-                let _g = leave_crate();
-                Poll::Ready(Tok::new(ObjKind::Tok, self.id, 0))
+        // SAFETY: nothing is moved out of `self`; `inner` is a Box, its target does not move
+        let this = unsafe { self.get_unchecked_mut() };
+        let id = this.id;
+        let Some(inner) = this.inner.as_mut() else {
+            return match w.fut_poll(id, addr, cx) {
+                Some(_) => {
+                    let _g = leave_crate();
+                    Poll::Ready(Tok::new(ObjKind::Tok, id, 0))
+                }
+                None => Poll::Pending,
+            };
+        };
+        // this is harness code called back from the crate: nothing it allocates is the crate's
+        let _g = leave_crate();
+        if !w.nested_poll_begin(id, addr, cx) {
+            return Poll::Pending;
+        }
+        let wrapper = nested_waker(id, w.clone_waker(cx.waker()));
+        let r = {
+            let mut cx2 = Context::from_waker(&wrapper);
+            let _g = crate::alloc::enter_crate();
+            Pin::new(&mut **inner).poll(&mut cx2)
+        };
+        drop(wrapper);
+        match r {
+            Poll::Ready(v) => {
+                w.nested_poll_ready(id);
+                drop(v);
+                Poll::Ready(Tok::new(ObjKind::Tok, id, 0))
             }
-            None => Poll::Pending,
+            Poll::Pending => {
+                w.nested_poll_pending(id, cx);
+                Poll::Pending
+            }
         }
     }
 }
 impl Drop for Child {
     fn drop(&mut self) {
         let addr = self as *const Child as usize;
+        if let Some(inner) = self.inner.take() {
+            // the inner combinator is crate code: it drops the wrapper waker registered in it
+            let _g = crate::alloc::enter_crate();
+            drop(inner);
+        }
         if let Some(w) = crate::world::try_w() {
             w.kid_dropped(self.id, addr);
         }
     }
+}
+
+/// The waker a nested child hands to its inner combinator: records the invocation as a wake of
+/// the nested child, then forwards to the crate waker the nested child was polled with.
+struct NestedW {
+    owner: u32,
+    inner: Option<std::task::Waker>,
+}
+fn nested_waker(owner: u32, inner: std::task::Waker) -> std::task::Waker {
+    use std::task::{RawWaker, RawWakerVTable, Waker};
+    unsafe fn nw<'a>(p: *const ()) -> &'a NestedW {
+        unsafe { &*(p as *const NestedW) }
+    }
+    static VT: RawWakerVTable = RawWakerVTable::new(
+        |p| {
+            let _g = leave_crate();
+            let me = unsafe { nw(p) };
+            let c = match crate::world::try_w() {
+                Some(w) => w.clone_waker(me.inner.as_ref().unwrap()),
+                None => me.inner.as_ref().unwrap().clone(),
+            };
+            RawWaker::new(Box::into_raw(Box::new(NestedW { owner: me.owner, inner: Some(c) })) as *const (), &VT)
+        },
+        |p| {
+            let _g = leave_crate();
+            let mut b = unsafe { Box::from_raw(p as *mut NestedW) };
+            let wk = b.inner.take().unwrap();
+            match crate::world::try_w() {
+                Some(w) => w.wake_val(wk, b.owner, 4),
+                None => wk.wake(),
+            }
+        },
+        |p| {
+            let _g = leave_crate();
+            let me = unsafe { nw(p) };
+            match crate::world::try_w() {
+                Some(w) => w.wake_ref(me.inner.as_ref().unwrap(), me.owner, 4),
+                None => me.inner.as_ref().unwrap().wake_by_ref(),
+            }
+        },
+        |p| {
+            let _g = leave_crate();
+            let mut b = unsafe { Box::from_raw(p as *mut NestedW) };
+            let wk = b.inner.take().unwrap();
+            match crate::world::try_w() {
+                Some(w) => w.drop_waker(wk, b.owner),
+                None => drop(wk),
+            }
+        },
+    );
+    let data = Box::into_raw(Box::new(NestedW { owner, inner: Some(inner) })) as *const ();
+    unsafe { Waker::from_raw(RawWaker::new(data, &VT)) }
 }
 
 /// `!Unpin` future; `Output = Result<Tok, ErrTok>`.
@@ -101,7 +191,31 @@ impl<P> Stream for Src<P> {
             None => Poll::Pending,
         }
     }
+    fn size_hint(&self) -> (usize, Option<usize>) {
+        match crate::world::try_w() {
+            Some(w) => w.src_hint(self.id),
+            None => (0, None),
+        }
+    }
 }
+impl crate::world::World {
+    /// honest size hint of a scripted source: the items it will still yield
+    pub fn src_hint(&self, id: u32) -> (usize, Option<usize>) {
+        let ks = self.kids.borrow();
+        let k = &ks[id as usize];
+        let rest = &k.script[k.pos.min(k.script.len())..];
+        if rest.contains(&crate::world::SrcStep::Infinite) {
+            return (0, None);
+        }
+        let r = rest.iter().filter(|s| **s == crate::world::SrcStep::Item).count();
+        match id % 3 {
+            0 => (r, Some(r)),
+            1 => (r / 2, Some(r + 1)),
+            _ => (r, Some(r)),
+        }
+    }
+}
+
 impl<P> Drop for Src<P> {
     fn drop(&mut self) {
         let addr = self as *const Self as usize;
